@@ -236,3 +236,109 @@ pub proof fn lemma_param_arm(f: FnUpdate, id: ParameterId, args: Vec<FnUpdate>, 
         }
     }
 }
+// ======================================================================================
+// "As the constants range over all Boolean values, the function ranges over exactly the instantiations of the input's function":
+// the naming scheme name_ + bits is uniquely decodable, hence (A) every interpretation of the original parameters is matched by a choice
+// of the constants, and (B) every choice of the constants is an interpretation of the original parameters.
+// ======================================================================================
+pub open spec fn cname(n0: &BooleanNetwork, id: ParameterId, bits: Seq<bool>) -> Seq<char> { pname(n0, id) + "_"@ + bstr(bits) }
+pub proof fn lemma_decode(a1: Seq<char>, b1: Seq<bool>, a2: Seq<char>, b2: Seq<bool>)
+    requires a1 + "_"@ + bstr(b1) == a2 + "_"@ + bstr(b2)
+    ensures a1 == a2, b1 == b2
+    decreases b1.len() + b2.len()
+{
+    reveal_strlit("_");
+    let s1 = a1 + "_"@ + bstr(b1);
+    let s2 = a2 + "_"@ + bstr(b2);
+    assert(s1.len() == a1.len() + 1 + b1.len() && s2.len() == a2.len() + 1 + b2.len());
+    if b1.len() > 0 && b2.len() > 0 {
+        assert(s1.last() == bch(b1.last()) && s2.last() == bch(b2.last()));
+        assert(b1.last() == b2.last());
+        assert(s1.drop_last() =~= a1 + "_"@ + bstr(b1.drop_last()));
+        assert(s2.drop_last() =~= a2 + "_"@ + bstr(b2.drop_last()));
+        lemma_decode(a1, b1.drop_last(), a2, b2.drop_last());
+        assert(b1 =~= b1.drop_last().push(b1.last()));
+        assert(b2 =~= b2.drop_last().push(b2.last()));
+    } else if b1.len() == 0 && b2.len() == 0 {
+        assert(s1.drop_last() =~= a1);
+        assert(s2.drop_last() =~= a2);
+        assert(b1 =~= b2);
+    } else if b1.len() == 0 {
+        assert(s1.last() == '_' && s2.last() == bch(b2.last()));
+    } else {
+        assert(s2.last() == '_' && s1.last() == bch(b1.last()));
+    }
+}
+// (B) a choice of the constants IS an interpretation of the original parameters
+pub open spec fn pi_of(pc: spec_fn(ParameterId, Seq<bool>) -> bool, n0: &BooleanNetwork, n: &BooleanNetwork) -> spec_fn(ParameterId, Seq<bool>) -> bool {
+    |id: ParameterId, bits: Seq<bool>| pc(ptab(n)[cname(n0, id, bits)], Seq::<bool>::empty())
+}
+pub proof fn lemma_constants_are_instantiations(f: FnUpdate, vv: spec_fn(VariableId) -> bool, pc: spec_fn(ParameterId, Seq<bool>) -> bool, n0: &BooleanNetwork, n: &BooleanNetwork)
+    ensures fflat(f, vv, pc, n0, n) == feval(f, vv, pi_of(pc, n0, n))
+    decreases f
+{
+    let pi = pi_of(pc, n0, n);
+    match f {
+        FnUpdate::Param(id, args) => {
+            lemma_fflat_param(id, args, vv, pc, n0, n);
+            assert forall|i: int| 0 <= i < args@.len() implies fflat(args@[i], vv, pc, n0, n) == feval(args@[i], vv, pi) by {
+                lemma_constants_are_instantiations(args@[i], vv, pc, n0, n);
+            }
+            let fa = flat_args(args@, vv, pc, n0, n);
+            assert forall|s: Seq<bool>| s.len() == args@.len() && (forall|i: int| 0 <= i < s.len() ==> s[i] == feval(args@[i], vv, pi)) implies #[trigger] pi(id, s) == pi(id, fa) by {
+                assert(s =~= fa);
+            }
+        },
+        FnUpdate::Not(g) => { lemma_constants_are_instantiations(*g, vv, pc, n0, n); },
+        FnUpdate::Binary(_, l, r) => { lemma_constants_are_instantiations(*l, vv, pc, n0, n); lemma_constants_are_instantiations(*r, vv, pc, n0, n); },
+        _ => {},
+    }
+}
+// (A) every interpretation of the original parameters is matched by a choice of the constants
+pub open spec fn is_const_of(q: ParameterId, id: ParameterId, bits: Seq<bool>, n0: &BooleanNetwork, n: &BooleanNetwork) -> bool {
+    ptab(n0).contains_key(pname(n0, id)) && ptab(n0)[pname(n0, id)] == id && ptab(n).contains_key(cname(n0, id, bits)) && ptab(n)[cname(n0, id, bits)] == q
+}
+pub open spec fn pc_of(pi: spec_fn(ParameterId, Seq<bool>) -> bool, n0: &BooleanNetwork, n: &BooleanNetwork) -> spec_fn(ParameterId, Seq<bool>) -> bool {
+    |q: ParameterId, s: Seq<bool>| {
+        let w = choose|w: (ParameterId, Seq<bool>)| is_const_of(q, w.0, w.1, n0, n);
+        pi(w.0, w.1)
+    }
+}
+pub proof fn lemma_const_unique(q: ParameterId, id1: ParameterId, b1: Seq<bool>, id2: ParameterId, b2: Seq<bool>, n0: &BooleanNetwork, n: &BooleanNetwork)
+    requires net_ok(n), is_const_of(q, id1, b1, n0, n), is_const_of(q, id2, b2, n0, n)
+    ensures id1 == id2, b1 == b2
+{
+    // two names with the same id in a consistent table are the same name
+    assert(pname(n, q) == cname(n0, id1, b1) && pname(n, q) == cname(n0, id2, b2));
+    lemma_decode(pname(n0, id1), b1, pname(n0, id2), b2);
+}
+pub proof fn lemma_instantiations_are_constants(f: FnUpdate, vv: spec_fn(VariableId) -> bool, pi: spec_fn(ParameterId, Seq<bool>) -> bool, n0: &BooleanNetwork, n: &BooleanNetwork)
+    requires net_ok(n), params_valid(f, n0), covered(f, n0, n)
+    ensures fflat(f, vv, pc_of(pi, n0, n), n0, n) == feval(f, vv, pi)
+    decreases f
+{
+    let pc = pc_of(pi, n0, n);
+    match f {
+        FnUpdate::Param(id, args) => {
+            lemma_fflat_param(id, args, vv, pc, n0, n);
+            assert forall|i: int| 0 <= i < args@.len() implies fflat(args@[i], vv, pc, n0, n) == feval(args@[i], vv, pi) by {
+                lemma_instantiations_are_constants(args@[i], vv, pi, n0, n);
+            }
+            let fa = flat_args(args@, vv, pc, n0, n);
+            assert(fa.len() == args@.len());
+            assert(ptab(n).contains_key(pname(n0, id) + "_"@ + bstr(fa)));
+            let q = ptab(n)[cname(n0, id, fa)];
+            assert(is_const_of(q, id, fa, n0, n));
+            let w = choose|w: (ParameterId, Seq<bool>)| is_const_of(q, w.0, w.1, n0, n);
+            assert(is_const_of(q, (id, fa).0, (id, fa).1, n0, n));
+            lemma_const_unique(q, id, fa, w.0, w.1, n0, n);
+            assert(pc(q, Seq::<bool>::empty()) == pi(id, fa));
+            assert forall|s: Seq<bool>| s.len() == args@.len() && (forall|i: int| 0 <= i < s.len() ==> s[i] == feval(args@[i], vv, pi)) implies #[trigger] pi(id, s) == pi(id, fa) by {
+                assert(s =~= fa);
+            }
+        },
+        FnUpdate::Not(g) => { lemma_instantiations_are_constants(*g, vv, pi, n0, n); },
+        FnUpdate::Binary(_, l, r) => { lemma_instantiations_are_constants(*l, vv, pi, n0, n); lemma_instantiations_are_constants(*r, vv, pi, n0, n); },
+        _ => {},
+    }
+}
